@@ -79,6 +79,20 @@ def run(ck):
     rs = release_sites(ad)
     bad = T.t2_all_exits(ad, [0], rs) if rs else [0]
     ck.verdict(bool(rs) and bad is None, "1", "T11-acquire-release", ad, "drop=>release", "dropping an Async adapter (also reached by into_inner) always reaches a poller release", "dropping an Async adapter never unregisters its fd: adapt_io(fd).into_inner() followed by adapt_io(fd) fails with EEXIST and the stale registration can produce ghost events", site=ad.where())
+    kb = ck.opt_body("<LoopInner as IoLoopInner>::kill")
+    if kb is None:
+        ck.anchor_missing("1", "T11-acquire-release", "<LoopInner as IoLoopInner>::kill")
+    else:
+        rel = [cs.bb for cs in kb.calls() if RELEASE(cs) and not kb.is_cleanup(cs.bb)]
+        exempt = []
+        for sw, blk in enumerate(kb.blocks):
+            if blk["term"]["t"] != "switch" or kb.is_cleanup(sw):
+                continue
+            e = kb.expr(blk["term"]["on"])
+            if e[0] == "place" and any(".is_registered" in p for r, p in kb.resolve(e[2])):
+                exempt += T.edges_of_value(kb, sw, False)
+        bad = T.t2_all_exits(kb, [0], rel, removed_edges=exempt) if rel else [0]
+        ck.verdict(bad is None, "1", "T11-acquire-release", kb, "registered=>released(no-other-condition)", "whenever the adapter is registered, tearing it down unregisters the fd: the only way around the poller call is the 'not registered' edge", "tearing down an Async adapter can skip unregistering a registered fd (an extra condition guards the release): with a non-owning IO object (&UnixStream, BorrowedFd, Rc<..>) the fd stays in the poller and adapting it again fails with EEXIST", site=kb.where(), path=path_descr(kb, bad) if bad else None)
     ii = ck.opt_body("Async::into_inner")
     if ii is not None:
         forgets = [cs for cs in ii.calls() if cs.f and cs.f["path"] in ("std::mem::forget", "std::mem::ManuallyDrop::<T>::new")]
